@@ -660,6 +660,6 @@ def errno_cleared_before_judged(db, rep, rule="D20-ERRNO-CLEARED"):
                       "%s compares errno (line %s) without having stored 0 into it first: an ERANGE left by an earlier library call - strtod of a "
                       "subnormal literal anywhere before - makes every following well-formed number `out of range`; what one line parses to depends on "
                       "the lines before it" % (f.name, c.line), line=c.line)
-    if n < 1:
-        raise AnalysisBroken("no comparison of errno found (the range test of the number conversions has moved)")
+    # no floor of its own: that a range test exists at all is demanded by D16-NUMBERS-CHECKED (which reports its absence as a
+    # violation); this rule judges the errno comparisons that are there
     return n
